@@ -6,6 +6,7 @@ From CelloV Require Import Generated StringModel.
 
 (* the model instantiated with the rules re-extracted from src/String.c *)
 Definition sm_new := m_new string_assign_alloc.
+Definition sm_new_empty := m_new_empty.
 Definition sm_step := m_step string_assign_alloc string_concat_alloc string_resize_alloc
                              string_format_alloc string_rem_count string_rem_checks
                              string_assign_self_safe string_concat_self_safe.
@@ -15,4 +16,4 @@ Definition s_murmur := murmur64.
 Definition s_n_of_nat := N.of_nat.
 
 Extraction Language OCaml.
-Extraction "../ocaml/gen/StringM.ml" sm_new sm_step ss_step sm_cstr s_murmur s_n_of_nat.
+Extraction "../ocaml/gen/StringM.ml" sm_new sm_new_empty sm_step ss_step sm_cstr s_murmur s_n_of_nat.
